@@ -27,6 +27,22 @@ type Val struct {
 	Dyn    *Val       // for interfaces: the boxed value when known
 	DynT   types.Type // its type
 	Typ    types.Type
+	Guard  *guardUse // a map loaded from a lock-protected field: the mutex that protects its contents
+}
+
+// guardUse: the lock discipline a value loaded from a protected field carries to the operations on it.
+type guardUse struct {
+	gi   *guardInfo
+	mref string // the mutex (interior pointer term)
+}
+
+type guardInfo struct {
+	comp      string // protected component
+	short     string // "T.f"
+	mutexComp string
+	mapType   *types.Map // set when the protected field holds a map: its contents are protected too
+	rule      *GuardRule
+	clause    *Clause
 }
 
 type closure struct {
@@ -96,7 +112,7 @@ type Engine struct {
 	specs     map[string]*FuncSpec // full key (pkgpath + "." + key or RelString) -> spec
 	stable    map[string]bool      // component names that survive full havoc
 	ghostVars map[string]bool
-	guarded   map[string]string
+	guarded   map[string]*guardInfo
 	dropped   map[string]int
 	assumes   map[string]bool
 	maxInline int
@@ -139,7 +155,6 @@ type Exec struct {
 	specDepth  int
 	quantN     int
 	topFrame   *frame
-	guardHook  func(f *frame, comp, mu string, h *Heap, g string, in ssa.Instruction)
 	shadow     map[string]Val
 	callLog    []callRec
 	curCallee  *ssa.Function
